@@ -25,7 +25,12 @@ Inductive Op : Type :=
 | OUpdateCtx (c : CtxId) (who : Z) (provs : list Z) (cap : Coins) (timeout freq total : Z) (ok : bool)
 | OWithdraw (owner prov : Z) (ok : bool)
 | OTransfer (from to amt : Z)
-| OEndBlock (dt : Z).
+| OEndBlock (dt : Z)
+(* the keeper API driven by the module that owns the context (no message, no signer) *)
+| OModUpdate (c : CtxId) (who : Z) (provs : list Z) (thr : Z) (cap : Coins) (timeout freq total : Z)
+| OModPause (c : CtxId) (who : Z)
+| OModStart (c : CtxId) (who : Z)
+| OModKill (c : CtxId) (who : Z).
 
 Inductive Outcome : Type := ROk | RErr | RPanic.
 
@@ -51,6 +56,11 @@ Definition handle (cfg : Params) (s : State) (o : Op) : Res State :=
   | OWithdraw owner prov ok => h_withdraw s owner prov ok
   | OTransfer from to amt => h_transfer s from to amt
   | OEndBlock dt => Ok (end_block cfg s dt)
+  | OModUpdate c who provs thr cap timeout freq total =>
+      h_mod_update cfg s c who provs thr cap timeout freq total
+  | OModPause c who => h_mod_pause s c who
+  | OModStart c who => h_mod_start s c who
+  | OModKill c who => h_mod_kill s c who
   end.
 
 Definition step (cfg : Params) (s : State) (o : Op) : State * Outcome :=
